@@ -52,6 +52,39 @@ CATALOGUE = {"inc", "dbl", "neg", "pair", "tsum", "size", "wrap", "add2", "cnt",
              "leafsum", "leaves", "prov", "vcanon"}
 
 
+def fuzz_part(pid, part_name, seconds_env="VERIF_FUZZ_SECONDS", default_seconds=60):
+    """-> an `exhaustive` callable for a Part: in the thorough tier it runs a coverage-guided
+    campaign (props/fuzz_generic.py: atheris driving the part's own strategy through Hypothesis'
+    fuzz_one_input) and yields the failing cases it saved; the part's execute() re-checks them."""
+    def run(tier):
+        if tier != "thorough":
+            return []
+        import subprocess
+        import tempfile
+        import shutil
+        from .vloop import workdir
+        out = tempfile.mkdtemp(dir=workdir())
+        cmd = [sys.executable, os.path.join(VERIF, "props", "fuzz_generic.py"), pid, part_name,
+               "--out", out, "-max_total_time=%s" % os.environ.get(seconds_env, default_seconds),
+               "-seed=%s" % (int(os.environ.get("VERIF_SEED", "1") or 1) or 1)]
+        try:
+            subprocess.run(cmd, timeout=1200, stdout=subprocess.DEVNULL, stderr=subprocess.DEVNULL)
+            cases = []
+            fn = os.path.join(out, "failures.jsonl")
+            if os.path.exists(fn):
+                cases = [json.loads(l) for l in open(fn)]
+            st_path = os.path.join(out, "stats.json")
+            n = json.load(open(st_path))["executions"] if os.path.exists(st_path) else 0
+            run.executions = n
+            if n == 0:
+                print("note: the coverage-guided campaign of %s/%s did not run (atheris missing "
+                      "under /verif/.deps? run MANIFEST.setup_cmd first)" % (pid, part_name))
+            return cases[:5]
+        finally:
+            shutil.rmtree(out, ignore_errors=True)
+    return run
+
+
 class HarnessError(Exception):
     pass
 
